@@ -32,6 +32,16 @@ def cfg_text(name):
     return CONFIGS[name]
 
 
+MB_COMMENT = '/* caf\u00e9 \u0159\u00ed\u010dka \u6f22\u5b57 \u20ac */\n'.encode('utf-8')
+
+
+def read_input(rel):
+    """'mb:<rel>' is the corpus file behind a comment with 2- and 3-byte characters (byte count != character count)."""
+    if rel.startswith('mb:'):
+        return MB_COMMENT + corpus.read(rel[3:])
+    return corpus.read(rel)
+
+
 def perturbations(x, F, r):
     ys = [('orig', x), ('formatted', F)]
     if len(F) > 2:
@@ -80,7 +90,7 @@ def _case(t):
     r = fixed_rng(PROP, 'case:%s:%s:%d' % (rel, cfgname, idx))
     K = cfg_text(cfgname)
     cfg = fmt.cfg_file(K)
-    x = corpus.read(rel)
+    x = read_input(rel)
     b = build.binary('plain')
     base = fmt.fmt(x, lang, K)
     if base.out is None:
@@ -224,6 +234,16 @@ def check(ctx):
     tasks = []
     for i, (rel, lang) in enumerate(sr.sample(files, min(n, len(files)))):
         tasks.append((rel, lang, sr.choice(sorted(CONFIGS)), i))
+    # inputs whose byte count differs from their character count are in every run: the corpus files with non-ASCII bytes under
+    # every config, and ASCII files behind a multi-byte comment
+    multibyte = [(rel, lang) for rel, lang in files if any(c > 127 for c in corpus.read(rel)[:65536])]
+    for rel, lang in multibyte:
+        for cfgname in sorted(CONFIGS):
+            tasks.append((rel, lang, cfgname, len(tasks)))
+    ascii_files = [(rel, lang) for rel, lang in files if (rel, lang) not in multibyte and len(corpus.read(rel)) < 6000]
+    for rel, lang in sr.sample(ascii_files, 24 if quick else 200):
+        tasks.append(('mb:' + rel, lang, sr.choice(sorted(CONFIGS)), len(tasks)))
+    ctx.count('multibyte_inputs', sum(1 for t in tasks if t[0].startswith('mb:') or (t[0], t[1]) in multibyte))
     ctx.rule = ('per (corpus file, config): y in {x, F(x), 10 one-byte/size/terminator/BOM perturbations of F(x), empty}; ground truth same(y) from a '
                 'normal -f run; --check singly and in batches of 2..8 (positional / -F), with directory snapshots (inode, size, mtime, ctime, '
                 'mode, bytes); --if-changed in 5 output modes; non-trivial = distinct (file, config, group) containing a member that would change')
@@ -241,11 +261,12 @@ def check(ctx):
             ctx.nt(r['rel'], r['cfg'], nt)
         for kind, desc in r['probs']:
             ctx.violation('%s|%s|%s' % (kind, r['cfg'], r['rel']), 'tests/input/%s config %s: %s' % (r['rel'], r['cfg'], desc),
-                          files={'input': corpus.read(r['rel']), 'config.cfg': cfg_text(r['cfg'])})
+                          files={'input': read_input(r['rel']), 'config.cfg': cfg_text(r['cfg'])})
     ctx.sample(dict(file=tasks[0][0], config=tasks[0][2], perturbations=['orig', 'formatted', 'last-byte-changed', 'last-byte-removed',
                                                                          'byte-appended', 'inner-space-doubled', 'crlf', 'bom-added', 'empty']))
     ctx.assumptions += ['ground truth for "would be reproduced" comes from a normal -f run (C10 ties the modes together)',
                         'a member that cannot be parsed ends a --check run with an error status; PASS/FAIL lines are judged up to that member']
     ctx.require('files_judged', 500)
+    ctx.require('multibyte_inputs', 50)
     ctx.require('pass_lines', 50)
     ctx.require('fail_lines', 200)
